@@ -1,12 +1,12 @@
 CONSTANTS
   W = 1
   Limit = 1
-  L = 1
-  Uds = {}
+  L = 2
+  Uds = {2}
   MaxConns = 2
   MaxFaults = 0
-  MaxCmds = 2
-  MaxErrs = 0
+  MaxCmds = 1
+  MaxErrs = 1
   MaxBare = 0
   WakeAt = 2
   IgnoreUnknownIdx = TRUE
@@ -19,9 +19,10 @@ CONSTANTS
   RoundRobinStuck = FALSE
   ConnErrIsFatal = FALSE
   WakeSkipsAcceptAll = FALSE
-  PauseKeepsRegistered = TRUE
+  PauseKeepsRegistered = FALSE
 SPECIFICATION Spec
 VIEW View
-INVARIANTS TypeOK C01_Conservation C01_ServedOnce C01_NoSilentDrop C02_Bound C02_NoForcedSend C03_NoLostWake C04_RoundRobin C04_BitsTrueWhenCalm C05_ListenerLive C05_UdsReachable C05_ConnErrNoDelay C05_TimerHasTimeout C08_NoPanic C08_NoSpin C08_NoGhostBit C08_NoDupHandles C08_FaultReportedOnce
+INVARIANTS TypeOK C01_Conservation C01_ServedOnce C01_NoSilentDrop C02_Bound C02_NoForcedSend C03_NoLostWake C04_RoundRobin C04_BitsTrueWhenCalm C05_ListenerLive C05_UdsReachable C05_ConnErrNoDelay C05_TimerHasTimeout C08_NoPanic C08_NoSpin C08_NoGhostBit C08_NoDupHandles C08_FaultReportedOnce LogInit
 PROPERTIES Steps
+ACTION_CONSTRAINT LogEdge
 CHECK_DEADLOCK FALSE
